@@ -201,8 +201,14 @@ impl<V: Debug + Clone> TrieNode<V> {
                             // `pos == 0` (same latent bug as `lookup_mut`).
                             if pos > 0 {
                                 return t.1.insert_recursive(&partial_key[..pos - 1], key, value);
-                            } else {
+                            } else if t.1.key_value.is_some() {
                                 return InsertResult::Existing;
+                            } else {
+                                // the node was created by a deeper host
+                                // (`w./re/.com`) and holds no value of its
+                                // own yet
+                                t.1.key_value = Some((key.to_vec(), value));
+                                return InsertResult::Ok;
                             }
                         }
                     }
